@@ -3,11 +3,14 @@ package main
 // Round-3 rules: invariants behind the third batch of seeded changes.
 
 import (
+	"fmt"
 	"go/ast"
 	"go/token"
 	"go/types"
 	"sort"
 	"strings"
+
+	"golang.org/x/tools/go/cfg"
 )
 
 func sortStrings(s []string) { sort.Strings(s) }
@@ -642,4 +645,471 @@ func c17R9(c *Ctx, r *Report) {
 	}
 	r.Check(assigned && bad == "", rule, "map.c:ferret_map_iter_begin", "iter->entry initialised before every early return", c.cpos(cf, fn),
 		"ferret_map_iter_begin can return ("+bad+") before iter->entry is set: the generated loop calls ferret_map_iter_next regardless of the result, which then dereferences an uninitialised pointer (segfault when iterating an empty map)")
+}
+
+// ---- C17.R10 --------------------------------------------------------------------------------------------
+
+func init() {
+	lateInits = append(lateInits, func() {
+		props["C17"].Quick = append(props["C17"].Quick, c17R10)
+		props["C17"].Explanation += " (R10) an entry is only added to a map (size++) after the key was looked up with equals_fn in the same function, or — for a static helper — in every caller before the call."
+	})
+}
+
+func c17R10(c *Ctx, r *Report) {
+	const rule = "C17.R10"
+	r.Describe(rule, "map.c: every `size++` is preceded, in its function, by a call through map->equals_fn (the key lookup); a helper without one is only called from functions that did the lookup before the call")
+	cf := cLoad(c, r, rule, "runtime/core/map.c")
+	if cf == nil {
+		return
+	}
+	lookupLine := func(fn *CNode) int {
+		line := 0
+		fn.Walk(func(x *CNode) bool {
+			if x.Kind == "CallExpr" && len(x.Inner) > 0 {
+				if m := x.Inner[0].strip(); m != nil && m.Kind == "MemberExpr" && m.Name == "equals_fn" && (line == 0 || x.Line < line) {
+					line = x.Line
+				}
+			}
+			return true
+		})
+		return line
+	}
+	n := 0
+	for _, name := range cf.Order {
+		fn := cf.Funcs[name]
+		var incs []*CNode
+		fn.Walk(func(x *CNode) bool {
+			if x.Kind == "UnaryOperator" && x.Opcode == "++" && len(x.Inner) == 1 {
+				if m := x.Inner[0].strip(); m != nil && m.Kind == "MemberExpr" && m.Name == "size" {
+					incs = append(incs, x)
+				}
+			}
+			return true
+		})
+		for _, inc := range incs {
+			n++
+			ll := lookupLine(fn)
+			if ll != 0 && ll < inc.Line {
+				r.OK(rule, "map.c:"+name, "size++ after the key lookup", c.cpos(cf, inc), "lookup precedes the insertion")
+				continue
+			}
+			// helper: every caller must have looked the key up before the call
+			bad := ""
+			callers := 0
+			for _, gname := range cf.Order {
+				g := cf.Funcs[gname]
+				g.Walk(func(x *CNode) bool {
+					if x.Kind == "CallExpr" && x.Callee() == name {
+						callers++
+						gl := lookupLine(g)
+						if gl == 0 || gl > x.Line {
+							bad = gname
+						}
+					}
+					return true
+				})
+			}
+			r.Check(callers > 0 && bad == "", rule, "map.c:"+name, "size++ only after the key lookup (in every caller)", c.cpos(cf, inc),
+				"an entry is linked and counted without a preceding equals_fn lookup (caller "+bad+"): a key that is already present becomes a second entry — size counts it twice and iteration visits it twice while lookups still look right")
+		}
+	}
+	r.Floor(rule, n, 1, "size++ sites in map.c")
+}
+
+// ---- C16.R8 / C11.R7: byte counts of mem* calls on word arrays -------------------------------------------
+
+func init() {
+	lateInits = append(lateInits, func() {
+		props["C16"].Quick = append(props["C16"].Quick, cMemSizes)
+		props["C11"].Quick = append(props["C11"].Quick, cMemSizes)
+		props["C16"].Explanation += " (R8) in the C runtime every memset/memcpy/memmove/memcmp whose destination is a pointer to a multi-byte element type passes a byte count built with sizeof."
+	})
+}
+
+func cElemIsByte(t string) bool {
+	t = strings.TrimSpace(strings.TrimSuffix(strings.TrimSpace(t), "*"))
+	t = strings.TrimPrefix(t, "const ")
+	switch strings.TrimSpace(t) {
+	case "void", "char", "unsigned char", "signed char", "uint8_t", "int8_t", "const void", "const char":
+		return true
+	}
+	return false
+}
+
+func cMemSizes(c *Ctx, r *Report) {
+	const rule = "C16.R8"
+	r.Describe(rule, "C runtime: memset/memcpy/memmove/memcmp with a destination of pointer-to-multi-byte type (limb arrays, …) take a length that contains sizeof — an element count passed as a byte count fills or copies only part of the words")
+	n := 0
+	for _, rel := range c.CRuntimeFiles() {
+		cf := cLoad(c, r, rule, rel)
+		if cf == nil {
+			continue
+		}
+		for _, name := range cf.Order {
+			fn := cf.Funcs[name]
+			k := 0
+			fn.Walk(func(x *CNode) bool {
+				if x.Kind != "CallExpr" {
+					return true
+				}
+				cal := x.Callee()
+				if cal != "memset" && cal != "memcpy" && cal != "memmove" && cal != "memcmp" {
+					return true
+				}
+				args := x.Args()
+				if len(args) != 3 {
+					return true
+				}
+				// destination type before the implicit conversion to void*
+				d := args[0]
+				for d != nil && (d.Kind == "ImplicitCastExpr" || d.Kind == "ParenExpr") && len(d.Inner) == 1 && cElemIsByte(d.Type) {
+					d = d.Inner[0]
+				}
+				if d == nil || !strings.Contains(d.Type, "*") && !strings.Contains(d.Type, "[") || cElemIsByte(d.Type) {
+					return true
+				}
+				n++
+				k++
+				size := args[2].Src()
+				r.Check(strings.Contains(size, "sizeof"), rule, shortC(rel)+":"+name, fmt.Sprintf("%s #%d on %s: byte count uses sizeof", cal, k, strings.TrimSpace(d.Type)), c.cpos(cf, x),
+					"the length `"+size+"` of "+cal+" on a `"+d.Type+"` is an element count, not a byte count: only the first bytes are written/copied (sign extension of a negative value into the upper limbs fills 1 byte per limb and the value becomes a large positive number)")
+				return true
+			})
+		}
+	}
+	r.Floor(rule, n, 3, "mem* calls on multi-byte element arrays in the C runtime")
+}
+
+// ---- C13.R2m: must-consume progress (experiment) ----------------------------------------------------------
+
+func parserMustConsumers(c *Ctx, may, prim map[*types.Func]bool, nonConsuming map[*types.Const]bool) map[*types.Func]bool {
+	must := map[*types.Func]bool{}
+	for f := range prim {
+		must[f] = true
+	}
+	expect := c.LookupFn(pkgParserRel, "(*Parser).expect")
+	expectErr := c.LookupFn(pkgParserRel, "(*Parser).expectError")
+	fns := c.AllFns(pkgParserRel)
+	var curFn *Fn
+	isMustCall := func(info *types.Info, call *ast.CallExpr) bool {
+		f := callee(info, call)
+		if f == nil || !must[f] {
+			return false
+		}
+		if (expect != nil && f == expect.Obj || expectErr != nil && f == expectErr.Obj) && len(call.Args) >= 1 {
+			k := constObj(info, call.Args[0])
+			if k == nil {
+				// a wrapper forwarding its own kind parameter (expect -> expectError): decided at the wrapper's call sites
+				if curFn != nil && (expect != nil && curFn.Obj == expect.Obj) && curFn.Param(0) != nil && usesVar(info, call.Args[0], curFn.Param(0)) {
+					return true
+				}
+				return false
+			}
+			if nonConsuming[k] {
+				return false
+			}
+		}
+		return true
+	}
+	for changed := true; changed; {
+		changed = false
+		for _, fn := range fns {
+			if must[fn.Obj] || !may[fn.Obj] || fn.Decl == nil || fn.Decl.Body == nil {
+				continue
+			}
+			info := fn.Info()
+			curFn = fn
+			g := cfg.New(fn.Decl.Body, func(*ast.CallExpr) bool { return true })
+			spec := FlowSpec{
+				Gate: func(nd ast.Node) bool {
+					return nodeCallsPred(nd, func(cl *ast.CallExpr) bool { return isMustCall(info, cl) }) != nil
+				},
+				AtReturn: true,
+			}
+			if expectErr != nil && fn.Obj == expectErr.Obj {
+				// the `kind == K` branches that return without consuming are accounted for at the call sites (by kind)
+				kindP := fn.Param(0)
+				spec.EdgeGate = func(b *cfg.Block, succ int) bool {
+					cond := condOf(b)
+					if cond == nil || succ != 0 {
+						return false
+					}
+					if be, ok := isBinOp(cond, token.EQL); ok && kindP != nil && usesVar(info, be.X, kindP) {
+						if k := constObj(info, be.Y); k != nil && nonConsuming[k] {
+							return true
+						}
+					}
+					return false
+				}
+			}
+			hits := mustFlow(g, spec)
+			if len(hits) == 0 {
+				must[fn.Obj] = true
+				changed = true
+			}
+		}
+	}
+	return must
+}
+
+// ---- C13.R12 typed nil into an interface; C13.R13 bounded parser recursion ---------------------------------
+
+func init() {
+	lateInits = append(lateInits, func() {
+		props["C13"].Quick = append(props["C13"].Quick, c13R12, c13R13)
+		props["C13"].Explanation += " (R12) no function with an interface result returns, unexamined, the result of a module function that yields a pointer and has a `return nil` path (a typed nil passes every `!= nil` test and is dereferenced later). (R13) every recursion cycle of the parser passes through a function that bounds the depth (enterNesting or an explicit depth parameter), reviewed linear chains excepted."
+	})
+}
+
+func c13R12(c *Ctx, r *Report) {
+	const rule = "C13.R12"
+	r.Describe(rule, "parser: `return f(...)` in a function whose result is an interface, where f is a module function with a pointer result and an explicit `return nil` path, is a typed nil — flagged")
+	// the parser is where `return nil` means "syntax error, nothing built" for arbitrary input; the lowering
+	// packages return nil only for a nil argument, which their callers never pass
+	pkgs := []string{"internal/frontend/parser"}
+	nilable := map[*types.Func]bool{}
+	for _, pk := range pkgs {
+		for _, fn := range c.AllFns(pk) {
+			sig := fn.Obj.Type().(*types.Signature)
+			if sig.Results().Len() != 1 {
+				continue
+			}
+			if _, ok := sig.Results().At(0).Type().Underlying().(*types.Pointer); !ok {
+				continue
+			}
+			ast.Inspect(fn.Decl.Body, func(x ast.Node) bool {
+				if _, ok := x.(*ast.FuncLit); ok {
+					return false
+				}
+				if ret, ok := x.(*ast.ReturnStmt); ok && len(ret.Results) == 1 && exprStr(ret.Results[0]) == "nil" {
+					nilable[fn.Obj] = true
+				}
+				return true
+			})
+		}
+	}
+	n := 0
+	for _, pk := range pkgs {
+		for _, fn := range c.AllFns(pk) {
+			sig := fn.Obj.Type().(*types.Signature)
+			if sig.Results().Len() != 1 {
+				continue
+			}
+			if _, ok := sig.Results().At(0).Type().Underlying().(*types.Interface); !ok {
+				continue
+			}
+			info := fn.Info()
+			ast.Inspect(fn.Decl.Body, func(x ast.Node) bool {
+				if _, ok := x.(*ast.FuncLit); ok {
+					return false
+				}
+				ret, ok := x.(*ast.ReturnStmt)
+				if !ok || len(ret.Results) != 1 {
+					return true
+				}
+				cl, ok := ast.Unparen(ret.Results[0]).(*ast.CallExpr)
+				if !ok {
+					return true
+				}
+				f := callee(info, cl)
+				if f == nil {
+					return true
+				}
+				if _, isPtr := info.TypeOf(cl).Underlying().(*types.Pointer); !isPtr {
+					return true
+				}
+				n++
+				r.Check(!nilable[f], rule, fn.Name(), "return "+exprStr(cl.Fun)+"(…) as "+sig.Results().At(0).Type().String(), c.pos(ret.Pos()),
+					funcKey(f)+" can return a nil pointer; returned directly as an interface value it is a non-nil interface holding nil: callers' nil checks pass and the first field access panics (`fn () foo() { }` crashed the collector)")
+				return true
+			})
+		}
+	}
+	r.Floor(rule, n, 5, "pointer-typed call results returned as interface values")
+}
+
+// parser recursion cycles that are not depth-bounded but grow one small frame per *sequential* construct
+var c13R13Reviewed = map[string]string{
+	"parseIfStmt": "`else if` ladder: one small frame per arm written out in sequence (a 200000-arm ladder parses without a crash); bounding it would reject long generated ladders",
+}
+
+func c13R13(c *Ctx, r *Report) {
+	const rule = "C13.R13"
+	r.Describe(rule, "parser: after removing the functions that bound the depth (callers of enterNesting; functions with an int depth parameter compared against a constant) the call graph of package parser has no cycle, except reviewed ones")
+	guard := c.LookupFn(pkgParserRel, "(*Parser).enterNesting")
+	fns := c.AllFns(pkgParserRel)
+	if !r.Anchor(rule, len(fns) > 50, "package frontend/parser") {
+		return
+	}
+	bounded := map[*types.Func]bool{}
+	edges := map[*types.Func][]*types.Func{}
+	byObj := map[*types.Func]*Fn{}
+	for _, fn := range fns {
+		byObj[fn.Obj] = fn
+		info := fn.Info()
+		for _, cl := range callsIn(fn.Decl.Body, true) {
+			f := callee(info, cl)
+			if f == nil {
+				continue
+			}
+			if guard != nil && f == guard.Obj {
+				bounded[fn.Obj] = true
+			}
+			if f.Pkg() == fn.Obj.Pkg() {
+				edges[fn.Obj] = append(edges[fn.Obj], f)
+			}
+		}
+		// explicit depth parameter compared with a constant
+		sig := fn.Obj.Type().(*types.Signature)
+		for i := 0; i < sig.Params().Len(); i++ {
+			p := sig.Params().At(i)
+			if b, ok := p.Type().Underlying().(*types.Basic); ok && b.Info()&types.IsInteger != 0 && strings.Contains(strings.ToLower(p.Name()), "depth") {
+				ast.Inspect(fn.Decl.Body, func(x ast.Node) bool {
+					if be, ok := x.(*ast.BinaryExpr); ok && (be.Op == token.GEQ || be.Op == token.GTR) && usesVar(info, be.X, p) && constOf(info, be.Y) != nil {
+						bounded[fn.Obj] = true
+					}
+					return true
+				})
+			}
+		}
+	}
+	r.Note("%s: %d depth-bounding parser functions", rule, len(bounded))
+	// Tarjan SCC on the graph without bounded nodes
+	index, low, onStack := map[*types.Func]int{}, map[*types.Func]int{}, map[*types.Func]bool{}
+	var stack []*types.Func
+	idx := 0
+	var sccs [][]*types.Func
+	var strong func(v *types.Func)
+	strong = func(v *types.Func) {
+		idx++
+		index[v], low[v] = idx, idx
+		stack = append(stack, v)
+		onStack[v] = true
+		for _, w := range edges[v] {
+			if bounded[w] || byObj[w] == nil {
+				continue
+			}
+			if index[w] == 0 {
+				strong(w)
+				if low[w] < low[v] {
+					low[v] = low[w]
+				}
+			} else if onStack[w] && index[w] < low[v] {
+				low[v] = index[w]
+			}
+		}
+		if low[v] == index[v] {
+			var comp []*types.Func
+			for {
+				w := stack[len(stack)-1]
+				stack = stack[:len(stack)-1]
+				onStack[w] = false
+				comp = append(comp, w)
+				if w == v {
+					break
+				}
+			}
+			self := false
+			for _, w := range edges[v] {
+				if w == v {
+					self = true
+				}
+			}
+			if len(comp) > 1 || self {
+				sccs = append(sccs, comp)
+			}
+		}
+	}
+	for _, fn := range fns {
+		if !bounded[fn.Obj] && index[fn.Obj] == 0 {
+			strong(fn.Obj)
+		}
+	}
+	for _, comp := range sccs {
+		var names []string
+		for _, f := range comp {
+			names = append(names, f.Name())
+		}
+		sort.Strings(names)
+		key := strings.Join(names, ",")
+		if reason, ok := c13R13Reviewed[key]; ok {
+			r.OK(rule, "frontend/parser", "cycle {"+key+"} (reviewed: "+reason+")", c.pos(byObj[comp[0]].Decl.Pos()), "reviewed exception")
+			continue
+		}
+		r.Fail(rule, "frontend/parser", "cycle {"+key+"} passes a depth bound", c.pos(byObj[comp[0]].Decl.Pos()),
+			"these parser functions call each other recursively without passing enterNesting or a depth check: input nested deeply enough (100000 parentheses are a 200 KB file) overflows the goroutine stack and the compiler dies with a fatal error instead of a diagnostic")
+	}
+	r.OK(rule, "frontend/parser", "call graph analysed", "-", fmt.Sprintf("%d functions, %d bounded, %d unbounded cycles", len(fns), len(bounded), len(sccs)))
+}
+
+func init() {
+	lateInits = append(lateInits, func() {
+		// scheduling a module twice makes diagnostics and output depend on the interleaving (C14)
+		props["C14"].Quick = append(props["C14"].Quick, c15R3)
+	})
+}
+
+// ---- C18.R5: ptrElem tags describe the pointer they are attached to ----------------------------------------
+
+func init() {
+	lateInits = append(lateInits, func() {
+		props["C18"].Quick = append(props["C18"].Quick, c18R5)
+		props["C18"].Explanation += " (R5) functionBuilder.ptrElem[v] — which decides between a memcpy of the whole aggregate and a plain store — is only written for a value created right there (nextValueID) with its element type, or with the referent type of v's own reference type; an existing pointer is never re-tagged with another type."
+	})
+}
+
+func c18R5(c *Ctx, r *Report) {
+	const rule = "C18.R5"
+	r.Describe(rule, "mir/gen: every store `b.ptrElem[k] = T` has k freshly created in the same function (nextValueID) or a builder set-up field, or T = ref.Inner of a *types.ReferenceType assertion (the pointer's own referent type)")
+	pe := c.fieldObj(pkgMIRGen, "functionBuilder", "ptrElem")
+	if !r.Anchor(rule, pe != nil, "mir/gen functionBuilder.ptrElem") {
+		return
+	}
+	n := 0
+	for _, fn := range c.AllFns(pkgMIRGen) {
+		info := fn.Info()
+		defs := localDefs(fn)
+		ast.Inspect(fn.Decl.Body, func(x ast.Node) bool {
+			as, ok := x.(*ast.AssignStmt)
+			if !ok || len(as.Lhs) != 1 || len(as.Rhs) != 1 {
+				return true
+			}
+			ix, ok := as.Lhs[0].(*ast.IndexExpr)
+			if !ok || fieldOf(info, ix.X) != pe {
+				return true
+			}
+			n++
+			good := false
+			// (a) fresh key
+			if o := objOf(info, ix.Index); o != nil && len(defs[o]) > 0 {
+				fresh := true
+				for _, d := range defs[o] {
+					cl, isCall := ast.Unparen(d).(*ast.CallExpr)
+					if !isCall {
+						fresh = false
+						continue
+					}
+					if f := callee(info, cl); f == nil || f.Name() != "nextValueID" {
+						fresh = false
+					}
+				}
+				good = fresh
+			}
+			// builder set-up fields (b.retParam, b.refOutParam)
+			if fv := fieldOf(info, ix.Index); fv != nil {
+				good = true
+			}
+			// (b) the referent type of the pointer's own reference type
+			if sel, ok := ast.Unparen(as.Rhs[0]).(*ast.SelectorExpr); ok && sel.Sel.Name == "Inner" {
+				if nt := namedOf(info.TypeOf(sel.X)); nt != nil && nt.Obj().Name() == "ReferenceType" {
+					good = true
+				}
+			}
+			r.Check(good, rule, fn.Name(), "ptrElem["+exprStr(ix.Index)+"] = "+exprStr(as.Rhs[0]), c.pos(as.Pos()),
+				"an existing pointer value is re-tagged with a type that is not its referent type: emitStore consults ptrElem to choose between copying the whole aggregate and a plain store, so a later `a = b` on that variable stores a pointer over the first field (or copies only the first field's size) and the other fields keep stale values")
+			return true
+		})
+	}
+	r.Floor(rule, n, 8, "stores into functionBuilder.ptrElem")
 }
